@@ -150,3 +150,47 @@ func Harness_C13_cluster_goal() {
 	}
 	zz.Assert(s1.dynsampler.GoalThroughputPerSec == want(g1, u1, n), "goal in force = max(1, floor(cfg / current peers)) with UseClusterSize, else cfg")
 }
+
+// C12 (concurrent creation): two workers create their sampler for the same definition at the same
+// time, the engine being free to switch between them at every mutex release (bounded preemption):
+// whatever the interleaving they end up sharing one rate-tracking state, and the registry holds
+// exactly that one. Natively the racing section is repeated so that a losing interleaving shows.
+func Harness_C12_concurrent() {
+	zz.MustCover("(*github.com/honeycombio/refinery/sample.SamplerFactory).createSampler")
+	zz.Bound("workers", 2)
+	zz.Bound("preemptions", 3)
+	kind := zz.Choose("samplerType", 2)
+	rounds := 1
+	if !zz.InEngine() {
+		rounds = 300
+	}
+	shared := true
+	for r := 0; r < rounds; r++ {
+		f := verifFactory(nil)
+		var c any = &config.DynamicSamplerConfig{SampleRate: 2, FieldList: []string{"f"}}
+		if kind == 1 {
+			c = &config.TotalThroughputSamplerConfig{GoalThroughputPerSec: 10, FieldList: []string{"f"}}
+		}
+		zz.PreemptAtSync(3)
+		var got [2]any
+		done := make(chan struct{}, 2)
+		for i := 0; i < 2; i++ {
+			i := i
+			go func() {
+				switch s := f.createSampler(c, "env").(type) {
+				case *DynamicSampler:
+					got[i] = s.dynsampler
+				case *TotalThroughputSampler:
+					got[i] = s.dynsampler
+				}
+				done <- struct{}{}
+			}()
+		}
+		<-done
+		<-done
+		zz.PreemptAtSync(0)
+		shared = shared && got[0] != nil && got[0] == got[1] && len(f.sharedDynsamplers) == 1
+		f.ClearDynsamplers()
+	}
+	zz.Assert(shared, "two workers creating the same definition at the same time share one rate-tracking state")
+}
